@@ -15,8 +15,10 @@ CLAIMED = {
              ref="DESIGN.md 4 (C10)", note=TRUST, tech=TECH),
  "C11": dict(text="Seeded search over semaphore scripts (2-4 threads, signal/signal(n)/wait(delta,slack)/try_acquire, equal and mixed requests) and barrier crossings (1-4 threads, 1-6 generations, wait/wait_yield) x interleavings, wake-up choice and spurious wake-ups; oracles: linearizability of the completed history against a counting-semaphore model (Wing-Gong search), token conservation, stranded-waiter check when the simulator reaches rest, per-generation enter/action/leave ordering, action exactly once, visibility of pre-barrier writes, deadlock detection. Sampling, not proof.",
              ref="DESIGN.md 4 (C11)", note=TRUST, tech=TECH),
+ "C12": dict(text="Seeded search over single-thread handle histories (construct, copy/move construct and assign incl. self and same-object, converting copy/move, swap, reset, unify, scope exit, no-op deleter) and over interleavings of 2-3 threads copying, moving and dropping private handles to one shared object while the controller drops its own concurrently; oracles: use_count()/unique() == number of handles observed pointing to the object after every step, destroy-exactly-once ledger, never destroyed while a handle remains (ledger + ASan), destroyed when the last handle goes, TSan on the object and its count. Sampling, not proof.",
+             ref="DESIGN.md 4 (C12)", note=TRUST, tech=TECH),
 }
-PENDING = ["C02", "C04", "C06", "C07", "C12", "C16", "C17"]
+PENDING = ["C02", "C04", "C06", "C07", "C16", "C17"]
 NA = {
  "C01":"pure function of a single-threaded call history: no schedule, clock, fault or environment seam in the statement (model-based testing, not simulation) - DESIGN.md 5",
  "C03":"sequential string sorts are pure functions of (strings, memory limit); nothing for a scheduler or fault injector to own - DESIGN.md 5",
